@@ -1,4 +1,6 @@
 import PrimaiteModel.Model.AclObj
+import PrimaiteModel.Model.AclParse
+import PrimaiteModel.Gen.AclParse
 open Primaite Primaite.Acl
 
 /-!
@@ -20,6 +22,9 @@ Round-1 lines (`new`, `add`, `remove`, `check`, `dump`) keep their meaning and a
   describe                                   implicit_action implicit_rule.action implicit_rule.match_count max_acl_rules num_rules
   show                                       rows of show(): index:rule …
   dumpall                                    `dump` + `describe` of all seven lists
+  pv <surface> <port|proto> <kind> <val>     what a written port / protocol becomes on a surface (fn = the translated validator
+                                             itself; api | request | action | loader = Model/AclParse over the regenerated tables);
+                                             kind s = str, i = int, n = None, e = empty str, o = other object
 -/
 
 def parseAction : String → Option Action
@@ -33,6 +38,18 @@ def showAction : Action → String | .permit => "PERMIT" | .deny => "DENY"
 def parseList : String → Option ListId
   | "router" => some .router | "intIn" => some .intIn | "intOut" => some .intOut | "dmzIn" => some .dmzIn
   | "dmzOut" => some .dmzOut | "extIn" => some .extIn | "extOut" => some .extOut | _ => none
+def parsePyVal (kind val : String) : Option Parse.PyVal :=
+  match kind with
+  | "s" => some (.str val) | "e" => some (.str "") | "n" => some .none | "o" => some .other
+  | "i" => val.toInt?.map .int
+  | _ => none
+def parseSurface : String → Option Parse.Surface
+  | "api" => some .api | "request" => some .request | "action" => some .action | "loader" => some .loader | _ => none
+def showPyVal : Parse.PyVal → String
+  | .str s => s | .int i => toString i | .none => "-" | .other => "?"
+def showField {α} (f : α → String) : Option (Option α) → String
+  | none => "raised" | some none => "-" | some (some a) => f a
+
 def showList : ListId → String
   | .router => "router" | .intIn => "intIn" | .intOut => "intOut" | .dmzIn => "dmzIn"
   | .dmzOut => "dmzOut" | .extIn => "extIn" | .extOut => "extOut"
@@ -146,6 +163,19 @@ def step (s : St) : List String → St × String
     match n.toInt? with
     | some n => (s.put (s.obj.setMaxRules n), "ok")
     | none => (s, "bad-op")
+  | ["pv", surf, field, kind, val] =>
+    match parsePyVal kind val with
+    | none => (s, "bad-op")
+    | some v =>
+      let T := Primaite.Gen.AclParse.tables
+      if surf = "fn" then
+        let r := if field = "port" then Primaite.Gen.AclParse.portValidator v else Primaite.Gen.AclParse.protocolValidator v
+        (s, match r with | some x => showPyVal x | none => "raised")
+      else match parseSurface surf with
+        | none => (s, "bad-op")
+        | some sf =>
+          if field = "port" then (s, showField toString (Parse.portVia T sf v))
+          else (s, showField id (Parse.protoNameVia T sf v))
   | ["dump"] => (s, dump s.obj.core)
   | ["describe"] => (s, describeLine s.obj)
   | ["show"] => (s, showLine s.obj)
